@@ -2482,7 +2482,8 @@ impl Formatter {
   pub fn swizzle(&mut self, node: &Vec<Identifier>) -> String {
     let mut src = "".to_string();
     for (i, ident) in node.iter().enumerate() {
-      let s = self.dot(ident);
+      // only the first name of a swizzle carries the period: `x.a,b,c`
+      let s = if i == 0 || self.html { self.dot(ident) } else { ident.to_string() };
       if i == 0 {
         src = format!("{}", s);
       } else {
